@@ -787,6 +787,11 @@ def histogram2d(
 
     hist = hist.reshape(nx, ny)
 
+    if rev or weights is not None:
+        # the 1-d histogram saw only the data within the limits: make the
+        # reverse indices refer to the input arrays, as documented
+        revind[nx * ny + 1:] = w[revind[nx * ny + 1:]]
+
     if not more and z is None:
         if rev:
             return hist, revind
@@ -841,7 +846,7 @@ def histogram2d(
             for i in range(hist.size):
                 if revind[i] != revind[i + 1]:
                     wbin = revind[revind[i]: revind[i + 1]]
-                    zmean[i] = z[w[wbin]].mean()
+                    zmean[i] = z[wbin].mean()
 
             output["zmean"] = zmean.reshape(nx, ny)
         return output
